@@ -366,3 +366,124 @@ func SaveVariant(src string, variant int) string {
 	}
 	return src
 }
+
+// ---- fourth round: trailing line comments in string expressions, lone CR
+// separators, CRLF files with regions the formatter copies verbatim
+
+// LineCommentCells: a `//` comment as the last token inside a string
+// expression, closing brace on the next line. `templ generate` only accepts
+// the spelling with a comma in front of the comment (the expression becomes
+// an argument list that may end in ",\n"); the comma-less spelling is kept as
+// a cell too (it is rejected, so it does not count). Block comments as controls.
+func LineCommentCells() []Cell {
+	var cells []Cell
+	add := func(name, body string) {
+		body += "\n"
+		cells = append(cells, Cell{Name: "cell=lc-" + name, Body: body, Src: FileOf(body), NoBase: true})
+	}
+	for _, e := range []struct{ name, x string }{
+		{"comma-linecomment", "{ s, // c\n}"},
+		{"comma-linecomment-indented-close", "{ s, // c\n\t}"},
+		{"comma-linecomment-long", "{ f(s), // the visitor's display name\n}"},
+		{"comma-linecomment-tight", "{s,//c\n}"},
+		{"comma-linecomment-blank", "{ s, // c\n\n}"},
+		{"comma-blockcomment-newline", "{ s, /* c */\n}"},
+		{"linecomment-nocomma", "{ s // c\n}"},
+		{"blockcomment-newline", "{ s /* c */\n}"},
+		{"blockcomment", "{ s /* c */ }"},
+		{"two-args-linecomment", "{ s, nil, // c\n}"},
+		{"multi-linecomments", "{ s, // c\n// d\n}"},
+	} {
+		add("top-"+e.name, e.x)
+		add("div-"+e.name, "<div>"+e.x+"</div>")
+		add("div-multiline-"+e.name, "<div>\n"+e.x+"\n</div>")
+		add("span-text-"+e.name, "<span>a "+e.x+" b</span>")
+		add("if-"+e.name, "if b {\n"+e.x+"\n}")
+		add("for-"+e.name, "for _, v := range vs {\n{ v }"+e.x+"\n}")
+		add("case-"+e.name, "switch s {\ncase \"a\":\n"+e.x+"\n}")
+		add("callblock-"+e.name, "@w() {\n"+e.x+"\n}")
+		add("then-sibling-"+e.name, e.x+"<b>x</b>")
+	}
+	t := "templ t() {\n<div>x</div>\n}\n"
+	for _, e := range []struct{ name, x string }{
+		{"comma-linecomment", "{ v, // c\n\t}"},
+		{"comma-linecomment-close-col0", "{ v, // c\n}"},
+		{"linecomment-nocomma", "{ v // c\n\t}"},
+		{"blockcomment", "{ v /* c */ }"},
+		{"comma-blockcomment-newline", "{ v, /* c */\n\t}"},
+	} {
+		src := "package main\n\ncss cl(v string) {\n\twidth: " + e.x + ";\n\tcolor: red;\n}\n\n" + t
+		cells = append(cells, Cell{Name: "cell=lc-css-" + e.name, Src: src, NoBase: true})
+	}
+	return cells
+}
+
+// CRCells: a lone carriage return (and "\r\r", " \r", "\r ", "\r\n") as the
+// separator between inline siblings of one-line elements, as lead / trail
+// whitespace, and between nodes of bodies.
+func CRCells() []Cell {
+	var cells []Cell
+	add := func(name, body string) {
+		body += "\n"
+		cells = append(cells, Cell{Name: "cell=cr-" + name, Body: body, Src: FileOf(body), NoBase: true})
+	}
+	seps := []struct{ n, s string }{{"cr", "\r"}, {"crcr", "\r\r"}, {"spcr", " \r"}, {"crsp", "\r "}, {"crlf", "\r\n"}, {"tabcr", "\t\r"}, {"crtab", "\r\t"}}
+	inl := []struct{ n, s string }{{"text", "aa"}, {"expr", "{ s }"}, {"span", "<span>x</span>"}, {"b", "<b>y</b>"}, {"emptyspan", "<span></span>"}, {"input", "<input/>"}, {"gocode", "{{ _ = s }}"}, {"call", "@c()"}, {"htmlcomment", "<!-- c -->"}}
+	for _, sp := range seps {
+		for _, a := range inl {
+			for _, b := range inl {
+				if a.n == "call" && (b.n == "text" || b.n == "expr" || b.n == "gocode") {
+					continue
+				}
+				add("div-"+a.n+"-"+sp.n+"-"+b.n, "<div>"+a.s+sp.s+b.s+"</div>")
+				add("span-"+a.n+"-"+sp.n+"-"+b.n, "<span>"+a.s+sp.s+b.s+"</span>")
+			}
+			add("top-"+a.n+"-"+sp.n+"-text", a.s+sp.s+"bb")
+			add("p-lead-trail-"+sp.n+"-"+a.n, "<p>"+sp.s+a.s+sp.s+"</p>")
+			add("if-"+a.n+"-"+sp.n+"-span", "if b {\n"+a.s+sp.s+"<span>x</span>\n}")
+			add("three-"+a.n+"-"+sp.n, "<p>"+a.s+sp.s+"<i>m</i>"+sp.s+a.s+"</p>")
+		}
+		add("attr-sep-"+sp.n, "<div id=\"i\""+sp.s+"class=\"a\">x</div>")
+		add("text-words-"+sp.n, "<p>aa"+sp.s+"bb</p>")
+		add("after-open-brace-"+sp.n, "if b {"+sp.s+"\n<i>x</i>\n}")
+	}
+	return cells
+}
+
+// CRLFCells: whole files with Windows (and mixed) line endings that contain
+// regions the formatter copies verbatim.
+func CRLFCells() []Cell {
+	var cells []Cell
+	add := func(name, src string) {
+		cells = append(cells, Cell{Name: "cell=crlf-" + name, Src: strings.ReplaceAll(src, "\n", "\r\n"), NoBase: true})
+	}
+	t := "templ t(s string) {\n\t<div>{ s }</div>\n}\n"
+	add("plain", "package main\n\n"+t)
+	add("html-comment-multi", "package main\n\ntempl t() {\n\t<!--\n\t a\n\t b\n\t-->\n\t<p>x</p>\n}\n")
+	add("go-comment-multi", "package main\n\ntempl t() {\n\t/*\n\t a\n\t b\n\t*/\n\t<p>x</p>\n}\n")
+	add("script-element", "package main\n\ntempl t() {\n\t<script>\n\t\tvar x = 1;\n\t\tvar y = 2;\n\t</script>\n}\n")
+	add("style-element", "package main\n\ntempl t() {\n\t<style>\n\t\tp { color: red; }\n\t\tb { color: blue; }\n\t</style>\n}\n")
+	add("script-template", "package main\n\nscript sc(a string) {\n\talert(a);\n\talert(a);\n}\n\n"+t)
+	add("css-template", "package main\n\ncss cl() {\n\tcolor: red;\n\twidth: 1px;\n}\n\n"+t)
+	add("go-block", "package main\n\nimport \"fmt\"\n\n// doc\n// more\nfunc f(s string) string {\n\treturn fmt.Sprint(s)\n}\n\n"+t)
+	add("go-block-rawstring", "package main\n\nvar x = `a\nb\nc`\n\n"+t)
+	add("gocode-multi", "package main\n\ntempl t() {\n\t{{\n\t\tv := 1\n\t\t_ = v\n\t}}\n\t<p>x</p>\n}\n")
+	add("expr-rawstring", "package main\n\ntempl t() {\n\t<p>{ `a\nb` }</p>\n}\n")
+	add("call-multi", "package main\n\ntempl t(s string) {\n\t@u(\n\t\ts,\n\t)\n}\n\ntempl u(s string) {\n\t<p>{ s }</p>\n}\n")
+	add("attr-expr-multi", "package main\n\ntempl t() {\n\t<div class={\n\t\t\"a\",\n\t\t\"b\",\n\t}>x</div>\n}\n")
+	add("attr-const-multi", "package main\n\ntempl t() {\n\t<div data-x=\"a\n\tb\">x</div>\n}\n")
+	add("header-comment", "// header\n// more\n\npackage main\n\n"+t)
+	add("header-block-comment", "/*\n header\n*/\npackage main\n\n"+t)
+	add("text-multi", "package main\n\ntempl t() {\n\t<p>\n\t\taa bb\n\t\tcc dd\n\t</p>\n}\n")
+	add("pre", "package main\n\ntempl t() {\n\t<pre>\n a\n  b\n</pre>\n}\n")
+	add("everything", "// h\npackage main\n\nimport \"fmt\"\n\n/*\n c\n*/\nfunc f() string { return fmt.Sprint(1) }\n\ncss cl() {\n\tcolor: red;\n}\n\nscript sc() {\n\tvar a = 1;\n\tvar b = 2;\n}\n\ntempl t() {\n\t<!--\n\t x\n\t-->\n\t<script>\n\t\tvar x;\n\t</script>\n\t<p class={ cl() }>{ f() }</p>\n}\n")
+	// mixed endings: LF file whose verbatim regions have CRLF, and the reverse
+	cells = append(cells,
+		Cell{Name: "cell=crlf-mixed-comment-crlf-in-lf-file", Src: "package main\n\ntempl t() {\n\t<!--\r\n\t a\r\n\t-->\n\t<p>x</p>\n}\n", NoBase: true},
+		Cell{Name: "cell=crlf-mixed-script-crlf-in-lf-file", Src: "package main\n\ntempl t() {\n\t<script>\r\n\t\tvar x;\r\n\t</script>\n}\n", NoBase: true},
+		Cell{Name: "cell=crlf-mixed-scripttemplate-crlf-in-lf-file", Src: "package main\n\nscript sc() {\r\n\tvar a = 1;\r\n}\n\n" + t, NoBase: true},
+		Cell{Name: "cell=crlf-mixed-lf-comment-in-crlf-file", Src: "package main\r\n\r\ntempl t() {\r\n\t<!--\n\t a\n\t-->\r\n\t<p>x</p>\r\n}\r\n", NoBase: true},
+		Cell{Name: "cell=crlf-mixed-last-line-only", Src: "package main\n\n" + t[:len(t)-1] + "\r\n", NoBase: true},
+	)
+	return cells
+}
